@@ -150,6 +150,7 @@ func checkC04(c *Check) {
 	c.Obl(okURL, "C04.R2", "url", P.Pos(m.CbExchange.Pos()), "request goes to the configured token URI", "the code exchange is not sent to the configured token URI")
 	c04Exchange(c, R)
 	transportPreservesRequest(c, "C04.R2")
+	exchangeIsSentOnce(c, "C04.R2", R)
 	// BasicAuthHeader shape: "Basic " + base64(id + ":" + secret)
 	if ba := P.Func(pkgHTTP, "BasicAuthHeader"); c.Anchor("C04.R2", "BasicAuthHeader", ba != nil) {
 		ok := false
